@@ -1,7 +1,7 @@
 (* Extraction of the executable models and specifications (ExtrOcamlBasic only; Z kept as
    the extracted inductive). *)
 Require Import MV.Base.Prelude MV.Base.CInt MV.Base.Index MV.Base.BorderSpec.
-Require Import MV.Gen.Scalar_gen MV.Model.Filter MV.Model.Morph MV.Model.Convolve MV.Model.Filters MV.Model.Labeled MV.Model.Label MV.Model.Extrema MV.Model.Watershed MV.Base.Renumber.
+Require Import MV.Gen.Scalar_gen MV.Model.Filter MV.Model.Morph MV.Model.Convolve MV.Model.Filters MV.Model.Labeled MV.Model.Label MV.Model.Extrema MV.Model.Watershed MV.Model.Distance MV.Base.Renumber.
 Require Extraction.
 Require Import ExtrOcamlBasic.
 Extraction Language OCaml.
@@ -18,4 +18,5 @@ Extraction "model.ml"
   label label_pairs
   locmm locmm_spec regmm regmm_spec close_holes close_holes_spec hitmiss hitmiss_spec
   cwatershed flood_spec
+  distance distance_spec gvoronoi dt1d minplus1d
   mh_open mh_close mh_cdilate mh_cerode mh_tophat_open mh_tophat_close psubm.
